@@ -3,6 +3,7 @@ import Rcgen.Spec.Props
 import Rcgen.Model.Pem
 import Rcgen.Spec.Pem
 import Rcgen.Model.CsrParse
+import Rcgen.Model.Keys
 /- line-protocol driver: one request per line, one response per line -/
 namespace Driver
 open Rcgen Rcgen.Model Sexp
@@ -194,6 +195,32 @@ def handle (op : String) (args : List Sexp) : R Sexp := do
     | .ok r => pure (.list [.atom "ok", encParams r.params,
         .list [.atom "key", .atom (algName r.key.alg), ofBytes r.key.raw]])
     | .error e => pure (.list [.atom "err", .atom (errName e)])
+  | "key-load", [b, entry, alg, fmt, kty] => do
+    let b ← match ← b.asAtom with
+      | "ring" => pure Backend.ring | "aws" => pure Backend.aws | s => throw s!"bad backend {s}"
+    let fmt ← match ← fmt.asAtom with
+      | "pkcs8v1" => pure DocFormat.pkcs8v1 | "pkcs8v2" => pure DocFormat.pkcs8v2
+      | "sec1" => pure DocFormat.sec1 | "pkcs1" => pure DocFormat.pkcs1 | s => throw s!"bad fmt {s}"
+    let kty ← match ← kty.asAtom with
+      | "ed25519" => pure KeyType.ed25519 | "p256" => pure KeyType.p256 | "p384" => pure KeyType.p384
+      | "p521" => pure KeyType.p521 | "rsa" => pure KeyType.rsa | s => throw s!"bad kty {s}"
+    let d : KeyDoc := { fmt := fmt, kty := kty }
+    let out ← match ← entry.asAtom with
+      | "auto" => pure (autodetect b d)
+      | "pkcs8" => do pure (loadPkcs8With b (← decAlg alg) d)
+      | "der" => do pure (loadDerWith b (← decAlg alg) d)
+      | s => throw s!"bad entry {s}"
+    match out with
+    | .ok a => pure (.list [.atom "ok", .atom (algName a)])
+    | .err .couldNotParseKeyPair => pure (.list [.atom "err", .atom "CouldNotParseKeyPair"])
+    | .err .keyRejected => pure (.list [.atom "err", .atom "RingKeyRejected"])
+    | .panic => pure (.atom "panic")
+  | "spki-lookup", [b, der] => do
+    let b ← match ← b.asAtom with
+      | "ring" => pure Backend.ring | "aws" => pure Backend.aws | s => throw s!"bad backend {s}"
+    match spkiAlgLookup b (← der.asBytes) with
+    | some a => pure (.list [.atom "ok", .atom (algName a)])
+    | none => pure (.list [.atom "err", .atom "UnsupportedSignatureAlgorithm"])
   | "spki", [k] => do pure (ofBytes (spkiDer (← decKey k)))
   | "sha", [k, b] => do
     let b ← b.asBytes
